@@ -15,6 +15,7 @@ from pyvc.sym import SymInt, SymBool, ctx, mk, mkb, as_z3_int, as_z3_bool
 from pyvc import sym as S
 from pyvc import symfloat as SF
 from contracts import c39 as B
+from contracts import wasmspec as W
 
 M = "ppci.wasm.execution.runtime"
 
@@ -186,39 +187,245 @@ for N in (32, 64):
                 ensures=_sat_post(N, signed)))
 
 
-def _trunc_post(N, signed):
+def _trap_exc():
+    from ppci.wasm.execution._base_instance import WasmTrapException
+    return WasmTrapException
+
+
+def _trunc_contract(N, signed):
+    """iN.trunc_fM_s/u (spec 4.3.3 trunc_s / trunc_u): traps iff the operand is NaN, an infinity, or its
+    truncation lies outside the integer type; otherwise the truncated value (two's-complement representation)"""
     lo, hi = (-(1 << (N - 1)), (1 << (N - 1)) - 1) if signed else (0, (1 << N) - 1)
 
-    def pre(e):
+    def traps(e):
         v = e.v
         if isinstance(v, float):
             import math
-            return [not math.isnan(v) and not math.isinf(v) and lo <= int(v) <= hi]
-        fin = and_(not_(_isnan(v)), not_(_isinf(v)))
-        ctx().assume(as_z3_bool(fin))
+            return math.isnan(v) or math.isinf(v) or not lo <= int(v) <= hi
         t = _trunc_real(v)
-        e["t"] = t
-        return [and_(t >= lo, t <= hi)]
+        return or_(_isnan(v), _isinf(v), t < lo, t > hi)
 
     def post(e):
-        t = int(e.v) if isinstance(e.v, float) else e.t
-        return [("in-range operand: result == trunc(v) (two's-complement representation)", e.result == _signed_repr(t, N))]
-    return pre, post
+        t = int(e.v) if isinstance(e.v, float) else _trunc_real(e.v)
+        return [("representable operand: result == trunc(v) (two's-complement representation)", e.result == _signed_repr(t, N))]
+    return traps, post
 
 
 for N in (32, 64):
     for F in (32, 64):
         for signed in (True, False):
-            pre, post = _trunc_post(N, signed)
+            traps, post = _trunc_contract(N, signed)
             CONTRACTS.append(Contract(
                 "%s:i%d_trunc_f%d_%s" % (M, N, F, "s" if signed else "u"), "C22", params={"v": "float"}, setup=_setup_float,
                 modules=["ppci.wasm.util"],
                 sample_inputs=lambda g, rnd: [{"v": {"__float__": repr(x)}} for x in _FSAMPLES],
-                requires=pre, ensures=post))
+                raises=[(_trap_exc(), traps)], ensures=post))
+
+# ---- float -> float helpers -------------------------------------------------------------------------------
+def _stub_round_f32(v):
+    """assumed contract of runtime._round_f32 (struct.pack('<f') rounding, C code): NaN stays NaN, infinities and
+    zeros are kept with their sign, a finite value becomes a finite value or the infinity of the same sign"""
+    if isinstance(v, float):
+        return W.f32r(v)
+    c = ctx()
+    r = SF.fresh(c.fresh_name("f32r"))
+    c.assume(r.nan == v.nan)
+    c.assume(z3.Implies(z3.Not(v.nan), r.neg == v.neg))
+    c.assume(z3.Implies(v.inf, r.inf))
+    c.assume(z3.Implies(z3.And(z3.Not(v.nan), z3.Not(v.inf), v.r == 0), z3.And(z3.Not(r.inf), r.r == 0)))
+    c.assume(z3.Implies(z3.And(z3.Not(v.nan), z3.Not(v.inf), v.r != 0), z3.Or(r.inf, z3.And(r.r != 0, (r.r < 0) == (v.r < 0)))))
+    return r
+
+
+def _setup_ff(g):
+    import ppci.wasm.execution.runtime as rt
+    from pyvc import pybuiltins as PB
+    old_math, old_r = rt.math, rt._round_f32
+    rt.math = SF.MATH
+    rt._round_f32 = _stub_round_f32
+    u = PB.install(rt)
+
+    def undo():
+        rt.math, rt._round_f32 = old_math, old_r
+        u()
+    return undo
+
+
+def _F(x):
+    return SF.SymFloat.of(x)
+
+
+def _fin(v):
+    return z3.And(z3.Not(v.nan), z3.Not(v.inf))
+
+
+def _mkf(nan, inf, neg, r):
+    return SF.SymFloat(nan, inf, neg, r)
+
+
+def _round_spec(mode):
+    """ffloor / fceil / ftrunc / fnearest (spec 4.3.3): NaN -> NaN, infinities and zeros unchanged, otherwise the
+    integral value, with the operand's sign when the result is zero"""
+    def post(e):
+        v, r = _F(e.x), _F(e.result)
+        want = _mkf(v.nan, v.inf, v.neg, z3.If(_fin(v), z3.ToReal(SF.real_to_int(v.r, mode)), v.r))
+        return [("result == f%s(x): NaN for NaN, infinities kept, integral value otherwise, sign of x kept (-0.0 results)" % mode, SF.feq(r, want))]
+    return post
+
+
+def _minmax_spec(which):
+    def post(e):
+        x, y, r = _F(e.x), _F(e.y), _F(e.result)
+        nan = z3.Or(x.nan, y.nan)
+        lt = as_z3_bool(e.x < e.y)
+        gt = as_z3_bool(e.x > e.y)
+        first = lt if which == "min" else gt        # x is the answer
+        second = gt if which == "min" else lt       # y is the answer
+        both_zero = z3.And(_fin(x), _fin(y), x.r == 0, y.r == 0)
+        zneg = z3.Or(x.neg, y.neg) if which == "min" else z3.And(x.neg, y.neg)
+        return [("NaN if either operand is NaN", implies(mkb(nan), mkb(r.nan))),
+                ("the smaller / larger operand otherwise", implies(mkb(z3.And(z3.Not(nan), first)), SF.feq(r, x))),
+                ("the smaller / larger operand otherwise (second)", implies(mkb(z3.And(z3.Not(nan), second)), SF.feq(r, y))),
+                ("equal operands: that value; for zeros of different sign -0.0 for min, +0.0 for max",
+                 implies(mkb(z3.And(z3.Not(nan), z3.Not(lt), z3.Not(gt))),
+                         ite(mkb(both_zero), lambda: SF.feq(r, _mkf(z3.BoolVal(False), z3.BoolVal(False), zneg, z3.RealVal(0))), lambda: SF.feq(r, x))))]
+    return post
+
+
+def _sqrt_post(e):
+    v, r = _F(e.v), _F(e.result)
+    negative = z3.Or(z3.And(v.inf, v.neg), z3.And(_fin(v), v.r < 0))
+    return [("NaN for NaN and for negative operands (including -infinity)", implies(mkb(z3.Or(v.nan, negative)), mkb(r.nan))),
+            ("sqrt(+-0) == +-0", implies(mkb(z3.And(_fin(v), v.r == 0)), SF.feq(r, v))),
+            ("sqrt(+infinity) == +infinity", implies(mkb(z3.And(v.inf, z3.Not(v.neg), z3.Not(v.nan))), SF.feq(r, v))),
+            ("positive finite operand: a non-negative, non-NaN result", implies(mkb(z3.And(_fin(v), v.r > 0)), mkb(z3.And(z3.Not(r.nan), z3.Not(r.neg)))))]
+
+
+_FF_SAMPLES1 = [0.0, -0.0, 0.5, -0.5, 1.5, -1.5, 2.5, -2.5, 3.5, 0.49999999999999994, -0.2, 0.2, 1e300, -1e300, 4503599627370497.0, 4503599627370496.5,
+                float("inf"), float("-inf"), float("nan"), 5e-324, -5e-324, 1.0, -1.0, 4.0, 2.25, -4.0]
+
+
+def _s1(name):
+    return lambda g, rnd: [{name: {"__float__": repr(x)}} for x in _FF_SAMPLES1]
+
+
+def _s2(g, rnd):
+    return [{"x": {"__float__": repr(rnd.choice(_FF_SAMPLES1))}, "y": {"__float__": repr(rnd.choice(_FF_SAMPLES1))}} for _ in range(60)] + \
+           [{"x": {"__float__": a}, "y": {"__float__": b}} for a in ("0.0", "-0.0", "nan", "1.0") for b in ("0.0", "-0.0", "nan", "1.0")]
+
+
+for F in (32, 64):
+    for nm, mode in (("floor", "floor"), ("ceil", "ceil"), ("trunc", "trunc"), ("nearest", "round")):
+        CONTRACTS.append(Contract("%s:f%d_%s" % (M, F, nm), "C22", params={"x": "float"}, setup=_setup_ff, modules=[M],
+                                  sample_inputs=_s1("x"), ensures=_round_spec(mode)))
+    for nm in ("min", "max"):
+        CONTRACTS.append(Contract("%s:f%d_%s" % (M, F, nm), "C22", params={"x": "float", "y": "float"}, setup=_setup_ff, modules=[M],
+                                  sample_inputs=_s2, ensures=_minmax_spec(nm)))
+    CONTRACTS.append(Contract("%s:f%d_sqrt" % (M, F), "C22", params={"v": "float"}, setup=_setup_ff, modules=[M], sample_inputs=_s1("v"), ensures=_sqrt_post))
+    CONTRACTS.append(Contract("%s:f%d_abs" % (M, F), "C22", params={"x": "float"}, setup=_setup_ff, modules=[M], sample_inputs=_s1("x"),
+                              ensures=lambda e: [("fabs: the operand with the sign bit cleared (NaN stays NaN)",
+                                                  SF.feq(e.result, _mkf(_F(e.x).nan, _F(e.x).inf, z3.BoolVal(False), z3.If(_F(e.x).r < 0, -_F(e.x).r, _F(e.x).r))))]))
+    CONTRACTS.append(Contract("%s:f%d_copysign" % (M, F), "C22", params={"x": "float", "y": "float"}, setup=_setup_ff, modules=[M], sample_inputs=_s2,
+                              ensures=lambda e: [("fcopysign: magnitude of x, sign bit of y (also for zeros, infinities and NaN operands y)",
+                                                  SF.feq(e.result, _mkf(_F(e.x).nan, _F(e.x).inf, _F(e.y).neg,
+                                                                         z3.If(_F(e.y).neg, -1, 1) * z3.If(_F(e.x).r < 0, -_F(e.x).r, _F(e.x).r))))]))
+CONTRACTS.append(Contract("%s:f64_promote_f32" % M, "C22", params={"v": "float"}, setup=_setup_ff, modules=[M], sample_inputs=_s1("v"),
+                          ensures=lambda e: [("promotion keeps the value", SF.feq(e.result, e.v))]))
+CONTRACTS.append(Contract("%s:f32_demote_f64" % M, "C22", params={"v": "float"}, setup=_setup_ff, modules=[M], sample_inputs=_s1("v"),
+                          ensures=lambda e: [("demotion keeps NaN, the sign, infinities and zeros (rounding itself: bounded stand-in)",
+                                              and_(iff(mkb(_F(e.result).nan), mkb(_F(e.v).nan)),
+                                                   implies(mkb(z3.Not(_F(e.v).nan)), mkb(_F(e.result).neg == _F(e.v).neg)),
+                                                   implies(mkb(_F(e.v).inf), mkb(_F(e.result).inf))))]))
+
+
+# ---- bounded end-to-end stand-in (never counted as proved) ------------------------------------------------
+# One module with one exported single-instruction function per numeric instruction (plus a few that reach
+# an operator through constants, select and a compared branch) is translated by the real wasm -> IR ->
+# python pipeline (instantiate(target="python")) and every export is evaluated on a boundary-value grid
+# against the reference semantics of contracts/wasmspec.py.
+_INST = {}
+
+
+def _instance():
+    if "i" not in _INST:
+        from ppci.wasm import Module, instantiate
+        fs = W.functions()
+        m = Module("(module\n" + "\n".join(f[1] for f in fs) + ")")
+        _INST["i"] = (instantiate(m, {}, target="python"), {f[0]: f for f in fs})
+    return _INST["i"]
+
+
+def _fj(x):
+    """JSON-able form of an argument / result"""
+    return {"__float__": repr(x)} if isinstance(x, float) else x
+
+
+def _unj(x):
+    return float(x["__float__"]) if isinstance(x, dict) else x
+
+
+def _eval_one(name, args):
+    inst, fs = _instance()
+    spec = fs[name][2]
+    want = spec(*args)
+    try:
+        got = getattr(inst.exports, name)(*args)
+        exc = None
+    except Exception as ex:          # any exception is the observable form of a trap on the python target
+        got, exc = W.TRAP, "%s: %s" % (type(ex).__name__, str(ex)[:80])
+    if want == W.TRAP or got == W.TRAP:
+        ok = want == got
+    else:
+        ok = W.same(got, want)
+    return ok, want, got, exc
+
+
+def bounded(tier_name, rnd):
+    import itertools
+    thorough = tier_name != "quick"
+    inst, fs = _instance()
+    evals, vio, per = 0, [], {}
+    known = {tuple(k) for k in _KNOWN_E2E}
+    for name, (_, wat, spec, params, result) in fs.items():
+        doms = [W.ivals(int(p[1:]), thorough) if p[0] == "i" else W.fvals(int(p[1:]), thorough) for p in params]
+        nbad = 0
+        for args in itertools.product(*doms):
+            evals += 1
+            ok, want, got, exc = _eval_one(name, args)
+            if not ok and nbad < 2:
+                nbad += 1
+                vio.append({"name": "wasm %s%r on the python target == WebAssembly semantics" % (name, tuple(args)),
+                            "input": {"function": name, "wat": wat, "args": [_fj(a) for a in args]},
+                            "expected": repr(want), "observed": repr(got) + (" (%s)" % exc if exc else "")})
+        per[name] = nbad
+    s0 = list(fs.values())[0]
+    return {"evaluations": evals, "distinct_nontrivial": evals, "exhaustive": True,
+            "rule": "one exported function per numeric instruction of the supported set (%d functions: every i32/i64/f32/f64 arithmetic, bitwise, shift, rotate, "
+                    "count, comparison, conversion, truncation, reinterpretation, sign-extension instruction, plus 5 functions reaching an operator through "
+                    "constants / select / if) x the full product of a boundary-value grid per operand type (powers of two +-1, type minima / maxima, shift "
+                    "counts around the width, signed zeros, infinities, NaN, rounding ties, values around 2^24 / 2^31 / 2^32 / 2^53 / 2^63 / 2^64); compiled by the "
+                    "real wasm->IR->python pipeline, compared with the reference semantics in contracts/wasmspec.py; each (function, arguments) pair is distinct"
+                    % len(fs),
+            "programs": len(fs),
+            "samples": [{"function": s0[0], "wat": s0[1], "args": [1, -1]}, {"function": "f64_min", "args": [{"__float__": "0.0"}, {"__float__": "-0.0"}]}],
+            "bound": "single-instruction functions; %s operand grid (%d i32, %d i64, %d f32, %d f64 values); python execution target only"
+                     % (tier_name, len(W.ivals(32, thorough)), len(W.ivals(64, thorough)), len(W.fvals(32, thorough)), len(W.fvals(64, thorough))),
+            "violations": vio}
+
+
+_KNOWN_E2E = []
+
+
+def replay_bounded(inp):
+    args = [_unj(a) for a in inp["args"]]
+    ok, want, got, exc = _eval_one(inp["function"], args)
+    detail = {"function": inp["function"], "args": inp["args"], "expected": repr(want), "observed": repr(got) + (" (%s)" % exc if exc else "")}
+    return ok, detail
+
 
 ASSUMED = ["finite doubles are modelled by their exact real value as arbitrary reals (over-approximation, sound for proofs; pyvc.symfloat); no floating-point arithmetic is modelled",
            "f32 operands are doubles that happen to be representable in binary32: the contracts quantify over every double (a superset)",
            "the spec functions of contracts/c39.py are the WebAssembly integer operator definitions (irotl, irotr, iclz, ictz, ipopcnt, iextendM_s)"]
 NOT_COVERED = ["wasm -> IR translation, instantiation, memory, globals, traps, the native execution target (whole-pipeline behaviour against a reference "
-               "engine is outside contract reach)", "non-saturating trunc_* outside the target range / NaN / infinity (wasm traps; ppci returns a value)",
-               "float -> float helpers (floor, ceil, trunc, nearest, min, max, copysign, sqrt, promote/demote, reinterpret)"]
+               "engine is outside contract reach)", "rounding to binary32 (_round_f32, struct.pack in C) and the value of sqrt for positive operands: assumed contracts here, exercised by the bounded stand-in only",
+               "reinterpret helpers (struct pack / unpack of float bit patterns): bounded stand-in only"]
